@@ -66,6 +66,18 @@ pub fn matches(predicate: &str, v: &Viol) -> bool {
                 && v.detail.contains("feff")
                 && matches!(&v.case, Case::C11(c) if crate::prop::c11::build_stream(c).chars().skip(1).any(|ch| ch == '\u{feff}'))
         }
+        // C11: the parser (dependency) takes a NUL character for the end of its input: everything behind it,
+        // further documents included, is silently dropped by every entry point.
+        "c11_nul_ends_stream" => {
+            matches!(
+                v.clause.as_str(),
+                "batch-differs-from-documents" | "iterator-differs-from-documents" | "single-entry-accepts-second-document" | "batch-accepts-failing-document"
+            ) && matches!(&v.case, Case::C11(c) if {
+                let s = crate::prop::c11::build_stream(c);
+                // something other than line breaks follows the NUL
+                s.split_once('\0').map(|(_, rest)| !rest.trim().is_empty()).unwrap_or(false)
+            })
+        }
         _ => false,
     }
 }
